@@ -460,7 +460,7 @@ def reach_without(cfg, src, cut):
     return cfg.reachable(src, edge_ok=lambda a, b_, label: not (a.id in cut and label == cut[a.id]))
 
 
-def sym_expr(fi, expr, at, depth=6):
+def sym_expr(fi, expr, at, depth=6, allow_calls=(), keep=()):
     """`expr` with the local names it reads replaced by their definitions, where that is a faithful description of the value at
     cfg node `at`: the name has exactly one reaching definition, the defining expression contains no call, and - for values
     that read attributes - no statement of the function stores one of those attributes on a path from the definition to `at`.
@@ -495,11 +495,14 @@ def sym_expr(fi, expr, at, depth=6):
         return False
 
     def rec(e, node_id, d):
-        if isinstance(e, ast.Name) and isinstance(e.ctx, ast.Load) and d > 0:
+        if isinstance(e, ast.Name) and isinstance(e.ctx, ast.Load) and d > 0 and e.id not in keep:
             defs = du.reaching(e.id, node_id)
             if len(defs) == 1 and defs[0][0] != "ENTRY" and isinstance(defs[0][1], ast.AST) and defs[0][2] not in ("aug",):
                 v = defs[0][1]
-                if not any(isinstance(x, (ast.Call, ast.Await, ast.Yield, ast.YieldFrom, ast.NamedExpr, ast.Lambda)) for x in ast.walk(v)) \
+                # (a list / dict / set display is an object that is mutated later, not a value)
+                if not any(isinstance(x, (ast.Await, ast.Yield, ast.YieldFrom, ast.NamedExpr, ast.Lambda, ast.List, ast.Dict, ast.Set, ast.ListComp, ast.DictComp,
+                                          ast.SetComp, ast.GeneratorExp)) or
+                           (isinstance(x, ast.Call) and norm(x.func) not in allow_calls) for x in ast.walk(v)) \
                         and isinstance(v, ast.expr) and not clobbered(defs[0][0], v):
                     return rec(v, defs[0][0], d - 1)
             return e
@@ -522,8 +525,8 @@ def sym_expr(fi, expr, at, depth=6):
         return expr
 
 
-def sym_text(fi, expr, at, depth=6):
-    return ast.unparse(sym_expr(fi, expr, at, depth))
+def sym_text(fi, expr, at, depth=6, allow_calls=()):
+    return ast.unparse(sym_expr(fi, expr, at, depth, allow_calls=allow_calls))
 
 
 def flat_slice(ctx, fi, expr, at):
